@@ -336,12 +336,24 @@ class ModuleHandle(object):
 
     @staticmethod
     def _member_from_node(node):
+        def target_names(t):
+            # Names bound by an assignment target, including tuple/list
+            # unpacking and starred targets.
+            if isinstance(t, ast.Name):
+                return [t.id]
+            if isinstance(t, (ast.Tuple, ast.List)):
+                return [n for e in t.elts for n in target_names(e)]
+            if isinstance(t, ast.Starred):
+                return target_names(t.value)
+            return []
         extractors = {
             # Top-level assignments (as opposed to member assignments
             # whose targets are of type ast.Attribute).
-            ast.Assign: lambda x: [t.id for t in x.targets if isinstance(t, ast.Name)],
+            ast.Assign: lambda x: [n for t in x.targets for n in target_names(t)],
+            ast.AnnAssign: lambda x: target_names(x.target) if x.value is not None else [],
             ast.ClassDef: lambda x: [x.name],
             ast.FunctionDef: lambda x: [x.name],
+            ast.AsyncFunctionDef: lambda x: [x.name],
         }
         if isinstance(node, tuple(extractors.keys())):
             return extractors[type(node)](node)
